@@ -136,10 +136,20 @@ impl MockIssuer {
     pub fn set_answer(e: &Env, topic: u32, mode: u32) {
         e.storage().instance().set(&MKey::Answer(topic), &mode);
     }
-    pub fn is_claim_valid(e: &Env, _identity: Address, claim_topic: u32, _scheme: u32, _sig_data: Bytes, _claim_data: Bytes) {
+    /// A claim issued by this scripted issuer is the coherent tuple
+    /// (scheme 100+s, sig_data [s, topic, v], claim_data [v]); anything else is not its claim.
+    pub fn is_claim_valid(e: &Env, _identity: Address, claim_topic: u32, scheme: u32, sig_data: Bytes, claim_data: Bytes) {
         let mode: u32 = e.storage().instance().get(&MKey::Answer(claim_topic)).unwrap_or(0);
         if mode != 0 {
             panic!("claim rejected by issuer");
+        }
+        let coherent = sig_data.len() == 3
+            && claim_data.len() == 1
+            && sig_data.get(0).map(|s| 100 + s as u32) == Some(scheme)
+            && sig_data.get(1).map(|t| t as u32) == Some(claim_topic)
+            && sig_data.get(2) == claim_data.get(0);
+        if !coherent {
+            panic!("not a claim of this issuer");
         }
     }
 }
